@@ -98,9 +98,11 @@ def task(t):
     distinct = set()
     sample = None
     fault_sets = [()] + [((v, a),) for v in VERBS for a in ACTIONS]
+    pool_ = [(v, a) for v in VERBS for a in (("NO", "BYE", "EOF") if tier == "quick" else ACTIONS)]
+    fault_sets += [(x, y) for x, y in itertools.combinations(pool_, 2) if x[0] != y[0]]
     if tier == "thorough":
-        fault_sets += [((v1, a1), (v2, a2)) for (v1, a1), (v2, a2) in itertools.combinations([(v, a) for v in VERBS for a in ("NO", "BYE", "EOF")], 2)
-                       if v1 != v2]
+        small = [(v, a) for v in VERBS for a in ("NO", "EOF")]
+        fault_sets += [t for t in itertools.combinations(small, 3) if len({x[0] for x in t}) == 3]
     for state in states:
         for bi in range(len(BODIES)):
             for faults in fault_sets:
@@ -137,7 +139,7 @@ def run(tier, seed):
         viols.extend(r["violations"])
     cov = dict(states=len(states) * len(BODIES), transitions=n, traces_validated_against_impl=n, evaluations=n, distinct_nontrivial=sum(r["distinct"] for r in res),
                rule="E3: %d initial stores (old/new/other x absent/present/active, at most one active) x %d bodies x fault placements (none; each of "
-                    "%r x %r; thorough: every pair on distinct verbs) against the reference server without VERSION; oracle on the server's store "
+                    "%r x %r; every pair on distinct verbs; thorough: also triples) against the reference server without VERSION; oracle on the server's store "
                     "before/after" % (len(states), len(BODIES), VERBS, ACTIONS),
                samples=[r["sample"] for r in res if r["sample"]][:5] or [{"note": "none"}], exhaustive=True)
     return dict(violations=viols, coverage=cov, harness_errors=[], assumptions=["reference server semantics per RFC 5804 section 2 (DESIGN.md Appendix B)"])
